@@ -2,7 +2,9 @@
 //! libFuzzer target: the byte string is decoded by the same decoder the property check uses and judged by the same oracle.
 use libfuzzer_sys::fuzz_target;
 fuzz_target!(|data: &[u8]| {
-    let case = rdpcheck::props::c10::decode(&mut engine::Src::new(data));
+    // the library prints diagnostics with println!: keep them out of the campaign log
+    engine::report::silence_library_stdout();
+    let case = rdpcheck::props::c10::decode_light(&mut engine::Src::new(data));
     let out = rdpcheck::props::c10::run(&case);
     if let Some(f) = out.failure {
         if !f.signature.starts_with("inconclusive:") {
